@@ -417,7 +417,7 @@ class SuiteTeardownTask(BaseTask):
 
 
 def build_suite_teardown_task(suite, suite_setup_task, dependencies):
-    return SuiteTeardownTask(suite, suite_setup_task, dependencies) if suite_setup_task else None
+    return SuiteTeardownTask(suite, suite_setup_task, [suite_setup_task] + dependencies) if suite_setup_task else None
 
 
 class TestSessionSetupTask(BaseTask):
